@@ -78,14 +78,14 @@ theorem poFit_flat (pos : List PO) (hwf : posWf T pos = true) (hfl : pos.all poF
 
 include hT2 hC hch in
 theorem pVerb_follows (v : Verb) (hwf : verbWf T v = true) (i : Nat) (R : List Nat) :
-    ∃ c r, Follows C (pVerb ⟨T, ch⟩ i v R) c r ∧ c ≠ 0x7b ∧ c ≠ 0x7d := by
+    ∃ c r, Follows C (pVerb ⟨T, ch⟩ i v R) c r ∧ c ≠ 0x7b ∧ c ≠ 0x7d ∧ c ≠ 0x5d := by
   cases v with
   | a =>
-    exact ⟨0x61, _, follows_solid hT2 hC (solid_pn (pnB_pn hT2 (hT2.alpha 0x61 (by decide)))) (by decide) _, by decide, by decide⟩
+    exact ⟨0x61, _, follows_solid hT2 hC (solid_pn (pnB_pn hT2 (hT2.alpha 0x61 (by decide))) (by decide)) (by decide) _, by decide, by decide, by decide⟩
   | iri x0 =>
     cases x0 with
     | ref rr =>
-      refine ⟨0x3c, printIriBody (ch.at i).cs rr ++ [0x3e] ++ after T .punct (ch.at i) R, ?_, by decide, by decide⟩
+      refine ⟨0x3c, printIriBody (ch.at i).cs rr ++ [0x3e] ++ after T .punct (ch.at i) R, ?_, by decide, by decide, by decide⟩
       have : pVerb ⟨T, ch⟩ i (.iri (.ref rr)) R = 0x3c :: (printIriBody (ch.at i).cs rr ++ [0x3e] ++ after T .punct (ch.at i) R) := by
         simp [pVerb, pIri, iriText, iriKind, printIRIREF]
       rw [this]
@@ -99,7 +99,8 @@ theorem pVerb_follows (v : Verb) (hwf : verbWf T v = true) (i : Nat) (R : List N
         cases p <;> simp
       have hns := prefix_head hp _ c0 tl0 htext
       obtain ⟨hso, h23⟩ := nameStart_solid hT2 hns
-      refine ⟨c0, tl0, ?_, nameStart_ne hT2 hns (by decide) (by decide), nameStart_ne hT2 hns (by decide) (by decide)⟩
+      refine ⟨c0, tl0, ?_, nameStart_ne hT2 hns (by decide) (by decide), nameStart_ne hT2 hns (by decide) (by decide),
+        nameStart_ne hT2 hns (by decide) (by decide)⟩
       have : pVerb ⟨T, ch⟩ i (.iri (.pn p l)) R = c0 :: tl0 := by
         rw [← htext]; simp [pVerb, pIri, iriText, iriKind, hout, hlo]
       rw [this]
@@ -107,7 +108,7 @@ theorem pVerb_follows (v : Verb) (hwf : verbWf T v = true) (i : Nat) (R : List N
 
 include hT2 hC hch in
 theorem pPOs_follows (pos : List PO) (hne : pos ≠ []) (hfit : ∀ po ∈ pos, POFit T C ch po) (i : Nat) (R : List Nat) :
-    ∃ c r, Follows C (pPOs ⟨T, ch⟩ i pos R) c r ∧ c ≠ 0x7b ∧ c ≠ 0x7d := by
+    ∃ c r, Follows C (pPOs ⟨T, ch⟩ i pos R) c r ∧ c ≠ 0x7b ∧ c ≠ 0x7d ∧ c ≠ 0x5d := by
   cases pos with
   | nil => exact absurd rfl hne
   | cons po pos' =>
@@ -128,6 +129,7 @@ def SubjTopGood (T : Tables) (C : Cfg) (ch : Choices) (sj : Subj) : Prop :=
     dSubj C.resolve none st sj = some (sT, qs, st1) →
     SkEq C inp (pSubj ⟨T, ch⟩ i sj R) →
     ∃ (inp' : List Nat) (req : Bool) (x' xe : Ectx), SkEq C inp' R ∧ x'.subj = some (toT sT) ∧ x'.graph = none ∧
+      (subjIsBnpl sj = true → req = false) ∧
       Steps C .eof ⟨⟨x0, .statement⟩ :: s, inp, envOf st⟩ (qs.map toStmt)
         ⟨⟨x', if req then .polRequired else .pol⟩ :: ⟨x', .polContinue⟩ :: ⟨xe, .triplesEnd⟩ :: ⟨x0, .statement⟩ :: s, inp',
           envOf st1⟩
@@ -152,7 +154,7 @@ theorem subjTop_iri (x1 : IriS) (hwf : iriWf T x1 = true) : SubjTopGood T C ch (
           0x3c :: (printIriBody (ch.at i).cs rr ++ [0x3e] ++ after T .punct (ch.at i) R) := by simp [printIRIREF]
       have htx : pSubj ⟨T, ch⟩ i (.iri (.ref rr)) R = 0x3c :: (printIriBody (ch.at i).cs rr ++ [0x3e] ++ after T .punct (ch.at i) R) := by
         simp [pSubj, pObj, pIri, iriText, iriKind, printIRIREF]
-      refine ⟨_, true, { x0 with subj := some (.iri ii) }, x0, after_skip (T := T) hC .punct (ch.at i) (slot_ok hch i) R, rfl, hxg, ?_⟩
+      refine ⟨_, true, { x0 with subj := some (.iri ii) }, x0, after_skip (T := T) hC .punct (ch.at i) (slot_ok hch i) R, rfl, hxg, (by simp [subjIsBnpl]), ?_⟩
       have s2 := Steps.tok hT2 hC (f := ⟨x0, .subjIRIREF⟩) (s := ⟨x0, .triplesEnd⟩ :: ⟨x0, .statement⟩ :: s) (env := envOf st)
         (inp := 0x3c :: (printIriBody (ch.at i).cs rr ++ [0x3e] ++ after T .punct (ch.at i) R)) SkEq.rfl' rfl
         (solid_delim (by decide) (by decide)) (by decide)
@@ -171,7 +173,7 @@ theorem subjTop_iri (x1 : IriS) (hwf : iriWf T x1 = true) : SubjTopGood T C ch (
       have htext' : p ++ 0x3a :: (lo ++ after T .name (ch.at i) R) = c0 :: tl0 := by rw [← htext, hlo]; simp
       obtain ⟨hso, h23⟩ := nameStart_solid hT2 (prefix_head hp _ c0 tl0 htext')
       have htx : pSubj ⟨T, ch⟩ i (.iri (.pn p l)) R = c0 :: tl0 := by simp [pSubj, pObj, pIri, iriText, iriKind, hout, htext]
-      refine ⟨_, true, { x0 with subj := some (.iri ii) }, x0, after_skip (T := T) hC .name (ch.at i) (slot_ok hch i) R, rfl, hxg, ?_⟩
+      refine ⟨_, true, { x0 with subj := some (.iri ii) }, x0, after_skip (T := T) hC .name (ch.at i) (slot_ok hch i) R, rfl, hxg, (by simp [subjIsBnpl]), ?_⟩
       have s2 := Steps.tok hT2 hC (f := ⟨x0, .subjPName⟩) (s := ⟨x0, .triplesEnd⟩ :: ⟨x0, .statement⟩ :: s) (env := envOf st)
         (inp := c0 :: tl0) SkEq.rfl' rfl hso h23
         ((fn_subjPName hT hC x0 (envOf st) _ p l out ii _ c0 tl0 htext hp (scalars_of_B hps) (scalars_of_B hls) hout hcl hex).trans
@@ -190,7 +192,7 @@ theorem subjTop_iri (x1 : IriS) (hwf : iriWf T x1 = true) : SubjTopGood T C ch (
         (fn_tgE1_subj x0 (envOf st) (.iri ii) (toT_notLit_iri ii) c r h7b) (Steps.refl _)
       simpa using this
     refine ⟨c :: r, true, { x0 with subj := some (.iri ii) }, { x0 with subj := some (.iri ii) },
-      by rw [hf.1]; exact SkEq.rfl', rfl, hxg, ?_⟩
+      by rw [hf.1]; exact SkEq.rfl', rfl, hxg, (by simp [subjIsBnpl]), ?_⟩
     cases x1 with
     | ref rr =>
       have hs : Scalars rr := scalars_of_B (by simpa [iriWf] using hwf)
@@ -232,10 +234,10 @@ theorem subjTop_bn (l : List Nat) (hwf : labelWf T l = true) : SubjTopGood T C c
   have hcl := after_noclash hT2 .label (ch.at i) R (T := T)
   have hA := after_skip (T := T) hC .label (ch.at i) (slot_ok hch i) R
   have htx : pSubj ⟨T, ch⟩ i (.bn l) R = 0x5f :: (0x3a :: l ++ after T .label (ch.at i) R) := by simp [pSubj, pObj, pBNode]
-  have hus : solid T 0x5f = true := solid_pn (hT2.u_sub 0x5f hT2.us)
+  have hus : solid T 0x5f = true := solid_pn (hT2.u_sub 0x5f hT2.us) (by decide)
   cases htr : C.trig with
   | false =>
-    refine ⟨_, true, { x0 with subj := some (.bnode (.lbl l)) }, x0, hA, rfl, hxg, ?_⟩
+    refine ⟨_, true, { x0 with subj := some (.bnode (.lbl l)) }, x0, hA, rfl, hxg, (by simp [subjIsBnpl]), ?_⟩
     have s2 := Steps.tok hT2 hC (f := ⟨x0, .subjBNode⟩) (s := ⟨x0, .triplesEnd⟩ :: ⟨x0, .statement⟩ :: s) (env := envOf st)
       (inp := 0x5f :: (0x3a :: l ++ after T .label (ch.at i) R)) SkEq.rfl' rfl hus (by decide)
       ((fn_subjBNode hT hC x0 (envOf st) l _ (scalars_of_B hwf.1) hwf.2 hcl).trans (subjectTail_eq _ _ _ _)) (Steps.refl _)
@@ -244,7 +246,7 @@ theorem subjTop_bn (l : List Nat) (hwf : labelWf T l = true) : SubjTopGood T C c
     simpa [toT, Term.map, toBN] using s1
   | true =>
     refine ⟨c :: r, true, { x0 with subj := some (.bnode (.lbl l)) }, { x0 with subj := some (.bnode (.lbl l)) },
-      by rw [hf.1]; exact SkEq.rfl', rfl, hxg, ?_⟩
+      by rw [hf.1]; exact SkEq.rfl', rfl, hxg, (by simp [subjIsBnpl]), ?_⟩
     have s2 := Steps.fol hT2 hC (f := ⟨x0, .tgE1 (.bnode (.lbl l))⟩) (s := ⟨x0, .statement⟩ :: s) (env := envOf st) hA hf
       (fn_tgE1_subj x0 (envOf st) _ (toT_notLit_bn _) c r h7b) (Steps.refl _)
     have s1 := Steps.tok hT2 hC (f := ⟨x0, .statement⟩) (s := s) (env := envOf st) hin htx hus (by decide)
@@ -266,7 +268,7 @@ theorem subjTop_anon : SubjTopGood T C ch .anon := by
     follows_solid hT2 hC (solid_delim (by decide) (by decide)) (by decide) _
   cases htr : C.trig with
   | false =>
-    refine ⟨_, true, { x0 with subj := some (envOf st).fresh.1 }, { x0 with subj := some (envOf st).fresh.1 }, hA2, rfl, hxg, ?_⟩
+    refine ⟨_, true, { x0 with subj := some (envOf st).fresh.1 }, { x0 with subj := some (envOf st).fresh.1 }, hA2, rfl, hxg, (by simp [subjIsBnpl]), ?_⟩
     have s2 := Steps.fol hT2 hC (f := ⟨{ x0 with subj := some (envOf st).fresh.1 }, .subjAnonOrBNPL⟩) (s := ⟨x0, .statement⟩ :: s)
       (env := (envOf st).fresh.2) hA1 hf5d (fn_subjAnon_close _ _ _) (Steps.refl _)
     have s1 := Steps.tok hT2 hC (f := ⟨x0, .statement⟩) (s := s) (env := envOf st) hin htx
@@ -274,7 +276,7 @@ theorem subjTop_anon : SubjTopGood T C ch .anon := by
     simpa [envOf_fresh] using s1
   | true =>
     refine ⟨c :: r, true, { x0 with subj := some (envOf st).fresh.1 }, { x0 with subj := some (envOf st).fresh.1 },
-      by rw [hf.1]; exact SkEq.rfl', rfl, hxg, ?_⟩
+      by rw [hf.1]; exact SkEq.rfl', rfl, hxg, (by simp [subjIsBnpl]), ?_⟩
     have s3 := Steps.fol hT2 hC (f := ⟨x0, .tgE1 (envOf st).fresh.1⟩) (s := ⟨x0, .statement⟩ :: s) (env := (envOf st).fresh.2) hA2 hf
       (fn_tgE1_subj x0 _ _ (toT_notLit_bn _) c r h7b) (Steps.refl _)
     have s2 := Steps.fol hT2 hC (f := ⟨x0, .tgBracket (envOf st).fresh.1⟩) (s := ⟨x0, .statement⟩ :: s)
@@ -292,7 +294,7 @@ theorem subjTop_nil : SubjTopGood T C ch (.coll []) := by
   have hA2 := after_skip (T := T) hC .punct (ch.at (i + 1)) (slot_ok hch (i + 1)) R
   have htx : pSubj ⟨T, ch⟩ i (.coll []) R = 0x28 :: after T .punct (ch.at i) (0x29 :: after T .punct (ch.at (i + 1)) R) := by
     simp [pSubj, pObj, pPunct, pItems, itemsSlots]
-  refine ⟨_, true, { x0 with subj := some (.iri TtlDoc.rdfNil) }, x0, hA2, rfl, hxg, ?_⟩
+  refine ⟨_, true, { x0 with subj := some (.iri TtlDoc.rdfNil) }, x0, hA2, rfl, hxg, (by simp [subjIsBnpl]), ?_⟩
   have s2 := Steps.fol hT2 hC (f := ⟨x0, .parenTop (envOf st).fresh.1⟩) (s := ⟨x0, .statement⟩ :: s)
     (env := (envOf st).fresh.2) hA1 (follows_solid hT2 hC (solid_delim (by decide) (by decide)) (by decide) _)
     (fn_parenTop_close _ _ _ _) (Steps.refl _)
@@ -312,6 +314,32 @@ theorem subjTop_flat (sj : Subj) (hwf : subjWf T sj = true) (hfl : subjFlat sj =
     | nil => exact subjTop_nil hT hT2 hC hch
     | cons a b => simp [subjFlat] at hfl
 
+/-! ### the predicate-object list after a subject (possibly empty after `[ … ]`) -/
+
+include hT hT2 hC hch in
+theorem pos_phase (pos : List PO) (hfit : ∀ po ∈ pos, POFit T C ch po) (j : Nat) (x' : Ectx) (req : Bool) (S : List Frame)
+    (inp1 rest : List Nat) (c : Nat) (r : List Nat) (g : Option TermB) (st1 st2 : DState) (qs2 : List QuadB) (sT : TermB)
+    (hf : Follows C rest c r) (hc : c = 0x2e ∨ c = 0x5d ∨ c = 0x7d) (hs : x'.subj = some (toT sT)) (hg : x'.graph = g.map toT)
+    (hreq : pos = [] → req = false) (hd : dPOs C.resolve sT g st1 pos = some (qs2, st2))
+    (hin : SkEq C inp1 (pPOs ⟨T, ch⟩ j pos rest)) :
+    ∃ inp2, SkEq C inp2 rest ∧
+      Steps C .eof ⟨⟨x', if req then .polRequired else .pol⟩ :: ⟨x', .polContinue⟩ :: S, inp1, envOf st1⟩ (qs2.map toStmt)
+        ⟨S, inp2, envOf st2⟩ := by
+  by_cases hpe : pos = []
+  · subst hpe
+    have hr := hreq rfl
+    subst hr
+    simp only [dPOs, Option.some.injEq, Prod.mk.injEq] at hd
+    obtain ⟨rfl, rfl⟩ := hd
+    have hne : c ≠ 0x3b := by rcases hc with h | h | h <;> subst h <;> decide
+    refine ⟨c :: r, by rw [hf.1]; exact SkEq.rfl', ?_⟩
+    have s2 : Steps C .eof ⟨⟨x', .polContinue⟩ :: S, c :: r, envOf st1⟩ [] ⟨S, c :: r, envOf st1⟩ := by
+      simpa using Steps.fol hT2 hC (f := ⟨x', .polContinue⟩) (s := S) (env := envOf st1) (inp := c :: r)
+        (by rw [hf.1]; exact SkEq.rfl') hf (fn_polContinue_pop x' _ c r hne) (Steps.refl _)
+    simpa using Steps.fol hT2 hC (f := ⟨x', .pol⟩) (s := ⟨x', .polContinue⟩ :: S) (env := envOf st1) (by simpa [pPOs] using hin) hf
+      (fn_pol_pop hT2 hC x' _ c r (by rcases hc with h | h | h <;> simp [h])) (by simpa using s2)
+  · exact posGood hT hT2 hC hch pos hfit j x' S inp1 rest c r g st1 st2 qs2 sT req hf hc hs hg hpe hd hin
+
 /-! ### `triples .` at the top level -/
 
 /-- The run over one top-level statement `subject predicateObjectList .` -/
@@ -324,7 +352,7 @@ def StatementGood (T : Tables) (C : Cfg) (ch : Choices) (t : Triples) : Prop :=
       Steps C .eof ⟨⟨x0, .statement⟩ :: s, inp, envOf st⟩ (qs.map toStmt) ⟨⟨x0, .statement⟩ :: s, inp', envOf st'⟩
 
 include hT hT2 hC hch in
-theorem statementGood (t : Triples) (hsj : SubjTopGood T C ch t.s) (hne : t.pos ≠ [])
+theorem statementGood (t : Triples) (hsj : SubjTopGood T C ch t.s) (hne : t.pos ≠ [] ∨ subjIsBnpl t.s = true)
     (hfit : ∀ po ∈ t.pos, POFit T C ch po) : StatementGood T C ch t := by
   intro i x0 s inp rest st st' qs hxs hxg hd hin
   simp only [dTriples] at hd
@@ -342,12 +370,16 @@ theorem statementGood (t : Triples) (hsj : SubjTopGood T C ch t.s) (hne : t.pos 
       let j := i + triplesSlots t - 1
       have hfd : Follows C (pPunct ⟨T, ch⟩ j 0x2e rest) 0x2e (after T .punct (ch.at j) rest) :=
         follows_solid hT2 hC (solid_delim (by decide) (by decide)) (by decide) _
-      obtain ⟨c, r, hfv, h7b, _⟩ := pPOs_follows hT2 hC hch t.pos hne hfit (i + subjSlots t.s) (pPunct ⟨T, ch⟩ j 0x2e rest)
-      obtain ⟨inp1, req, x', xe, he1, hx's, hx'g, s1⟩ := hsj i x0 s inp _ c r st st1 sT qs1 hfv h7b hxs hxg hds
+      obtain ⟨c, r, hfv, h7b⟩ : ∃ c r, Follows C (pPOs ⟨T, ch⟩ (i + subjSlots t.s) t.pos (pPunct ⟨T, ch⟩ j 0x2e rest)) c r ∧ c ≠ 0x7b := by
+        by_cases hpe : t.pos = []
+        · rw [hpe]; exact ⟨0x2e, _, by simpa [pPOs] using hfd, by decide⟩
+        · obtain ⟨c, r, h1, h2, _⟩ := pPOs_follows hT2 hC hch t.pos hpe hfit (i + subjSlots t.s) (pPunct ⟨T, ch⟩ j 0x2e rest)
+          exact ⟨c, r, h1, h2⟩
+      obtain ⟨inp1, req, x', xe, he1, hx's, hx'g, hbn, s1⟩ := hsj i x0 s inp _ c r st st1 sT qs1 hfv h7b hxs hxg hds
         (by simpa [pStatement, pTriples, j] using hin)
-      obtain ⟨inp2, he2, s2⟩ := posGood hT hT2 hC hch t.pos hfit (i + subjSlots t.s) x'
-        (⟨xe, .triplesEnd⟩ :: ⟨x0, .statement⟩ :: s) inp1 _ 0x2e _ none st1 st2 qs2 sT req hfd (Or.inl rfl) hx's (by simpa using hx'g)
-        hne hdp he1
+      obtain ⟨inp2, he2, s2⟩ := pos_phase hT hT2 hC hch t.pos hfit (i + subjSlots t.s) x' req
+        (⟨xe, .triplesEnd⟩ :: ⟨x0, .statement⟩ :: s) inp1 _ 0x2e _ none st1 st2 qs2 sT hfd (Or.inl rfl) hx's (by simpa using hx'g)
+        (fun hpe => hbn (by rcases hne with h | h; exact absurd hpe h; exact h)) hdp he1
       refine ⟨_, after_skip (T := T) hC .punct (ch.at j) (slot_ok hch j) rest, ?_⟩
       have s3 : Steps C .eof ⟨⟨xe, .triplesEnd⟩ :: ⟨x0, .statement⟩ :: s, inp2, envOf st2⟩ []
           ⟨⟨x0, .statement⟩ :: s, after T .punct (ch.at j) rest, envOf st2⟩ := by
@@ -372,7 +404,7 @@ theorem dir_good (d : Dir) (hwf : dirWf T d = true) (i : Nat) (x0 : Ectx) (s : L
   have hiriref' : ∀ j (rr R : List Nat), printIRIREF (ch.at j).cs rr ++ after T .punct (ch.at j) R =
       0x3c :: (printIriBody (ch.at j).cs rr ++ [0x3e] ++ after T .punct (ch.at j) R) := by
     intro j rr R; simp [printIRIREF]
-  have hns : ∀ j (p R : List Nat), prefixOK T p = true → ∃ c0 tl0, pNs ⟨T, ch⟩ j p R = c0 :: tl0 ∧
+  have hns : ∀ j (p R : List Nat), prefixOK2 T p = true → ∃ c0 tl0, pNs ⟨T, ch⟩ j p R = c0 :: tl0 ∧
       p ++ 0x3a :: after T .punct (ch.at j) R = c0 :: tl0 ∧ solid T c0 = true ∧ c0 ≠ 0x23 := by
     intro j p R hp
     obtain ⟨c0, tl0, h⟩ : ∃ c0 tl0, p ++ 0x3a :: after T .punct (ch.at j) R = c0 :: tl0 := by cases p <;> simp
@@ -439,7 +471,7 @@ theorem dir_good (d : Dir) (hwf : dirWf T d = true) (i : Nat) (x0 : Ectx) (s : L
         rw [← hk.1]; by_cases hn : (ch.at i).n % 2 = 1 <;> simp [hn] <;> decide
       have s1 := Steps.tok hT2 hC (f := ⟨x0, .statement⟩) (s := s) (env := envOf st) hin
         (show pDir ⟨T, ch⟩ i (.prefixKw p rr) rest = k0 :: ktl by rw [← hk]; simp [pDir, hform])
-        (solid_pn (pnB_pn hT2 (hT2.alpha k0 hk0))) (fun hh => by subst hh; simp [isAlpha, NQ.isAlpha] at hk0)
+        (solid_pn (pnB_pn hT2 (hT2.alpha k0 hk0)) (by simp [isAlpha, NQ.isAlpha] at hk0; omega)) (fun hh => by subst hh; simp [isAlpha, NQ.isAlpha] at hk0)
         (fn_statement_PREFIX hC x0 (envOf st) _ w tl hw k0 ktl hk) (by simpa using s2)
       simpa [envOf, Env.addPrefix] using s1
     · cases hlt
@@ -469,7 +501,7 @@ theorem dir_good (d : Dir) (hwf : dirWf T d = true) (i : Nat) (x0 : Ectx) (s : L
       have hwne : w ≠ 0x3c := by intro hh; subst hh; simp [isWsRune] at hw
       have s1 := Steps.tok hT2 hC (f := ⟨x0, .statement⟩) (s := s) (env := envOf st) hin
         (show pDir ⟨T, ch⟩ i (.baseKw rr) rest = k0 :: ktl by rw [← hk]; simp [pDir, hform])
-        (solid_pn (pnB_pn hT2 (hT2.alpha k0 hk0'))) (fun hh => by subst hh; simp [isAlpha, NQ.isAlpha] at hk0')
+        (solid_pn (pnB_pn hT2 (hT2.alpha k0 hk0')) (by simp [isAlpha, NQ.isAlpha] at hk0'; omega)) (fun hh => by subst hh; simp [isAlpha, NQ.isAlpha] at hk0')
         (fn_statement_BASE hC x0 (envOf st) _ w tl (Or.inl hw) k0 ktl hk) (by simpa [hwne] using s2 tl hsk)
       simpa [envOf] using s1
     · obtain ⟨k0, ktl, hk⟩ : ∃ k0 ktl, kwCase (ch.at i).n (asc "BASE") ++ 0x3c ::
@@ -478,7 +510,7 @@ theorem dir_good (d : Dir) (hwf : dirWf T d = true) (i : Nat) (x0 : Ectx) (s : L
       have hk0' := hk0 k0 ktl _ hk
       have s1 := Steps.tok hT2 hC (f := ⟨x0, .statement⟩) (s := s) (env := envOf st) hin
         (show pDir ⟨T, ch⟩ i (.baseKw rr) rest = k0 :: ktl by rw [← hk, ← hiriref (i + 1) rr rest]; simp [pDir, hform])
-        (solid_pn (pnB_pn hT2 (hT2.alpha k0 hk0'))) (fun hh => by subst hh; simp [isAlpha, NQ.isAlpha] at hk0')
+        (solid_pn (pnB_pn hT2 (hT2.alpha k0 hk0')) (by simp [isAlpha, NQ.isAlpha] at hk0'; omega)) (fun hh => by subst hh; simp [isAlpha, NQ.isAlpha] at hk0')
         (fn_statement_BASE hC x0 (envOf st) _ 0x3c _ (Or.inr rfl) k0 ktl hk)
         (by simpa using s2 _ (by rw [hiriref]; simp [SkEq]))
       simpa [envOf] using s1
@@ -496,6 +528,7 @@ def SubjBodyGood (T : Tables) (C : Cfg) (ch : Choices) (sj : Subj) : Prop :=
     dSubj C.resolve g st sj = some (sT, qs, st1) →
     SkEq C inp (pSubj ⟨T, ch⟩ i sj R) →
     ∃ (inp' : List Nat) (req : Bool) (x' : Ectx), SkEq C inp' R ∧ x'.subj = some (toT sT) ∧ x'.graph = g.map toT ∧
+      (subjIsBnpl sj = true → req = false) ∧
       Steps C .eof ⟨⟨xg, .triples⟩ :: s, inp, envOf st⟩ (qs.map toStmt)
         ⟨⟨x', if req then .polRequired else .pol⟩ :: ⟨x', .polContinue⟩ :: s, inp', envOf st1⟩
 
@@ -517,7 +550,7 @@ theorem subjBody_flat (sj : Subj) (hwf : subjWf T sj = true) (hfl : subjFlat sj 
           0x3c :: (printIriBody (ch.at i).cs rr ++ [0x3e] ++ after T .punct (ch.at i) R) := by simp [printIRIREF]
       have htx : pSubj ⟨T, ch⟩ i (.iri (.ref rr)) R = 0x3c :: (printIriBody (ch.at i).cs rr ++ [0x3e] ++ after T .punct (ch.at i) R) := by
         simp [pSubj, pObj, pIri, iriText, iriKind, printIRIREF]
-      refine ⟨_, true, { xg with subj := some (.iri ii) }, after_skip (T := T) hC .punct (ch.at i) (slot_ok hch i) R, rfl, hxg, ?_⟩
+      refine ⟨_, true, { xg with subj := some (.iri ii) }, after_skip (T := T) hC .punct (ch.at i) (slot_ok hch i) R, rfl, hxg, (by simp [subjIsBnpl]), ?_⟩
       have s2 := Steps.tok hT2 hC (f := ⟨xg, .subjIRIREF⟩) (s := s) (env := envOf st)
         (inp := 0x3c :: (printIriBody (ch.at i).cs rr ++ [0x3e] ++ after T .punct (ch.at i) R)) SkEq.rfl' rfl
         (solid_delim (by decide) (by decide)) (by decide)
@@ -536,7 +569,7 @@ theorem subjBody_flat (sj : Subj) (hwf : subjWf T sj = true) (hfl : subjFlat sj 
       have htext' : p ++ 0x3a :: (lo ++ after T .name (ch.at i) R) = c0 :: tl0 := by rw [← htext, hlo]; simp
       obtain ⟨hso, h23⟩ := nameStart_solid hT2 (prefix_head hp _ c0 tl0 htext')
       have htx : pSubj ⟨T, ch⟩ i (.iri (.pn p l)) R = c0 :: tl0 := by simp [pSubj, pObj, pIri, iriText, iriKind, hout, htext]
-      refine ⟨_, true, { xg with subj := some (.iri ii) }, after_skip (T := T) hC .name (ch.at i) (slot_ok hch i) R, rfl, hxg, ?_⟩
+      refine ⟨_, true, { xg with subj := some (.iri ii) }, after_skip (T := T) hC .name (ch.at i) (slot_ok hch i) R, rfl, hxg, (by simp [subjIsBnpl]), ?_⟩
       have s2 := Steps.tok hT2 hC (f := ⟨xg, .subjPName⟩) (s := s) (env := envOf st)
         (inp := c0 :: tl0) SkEq.rfl' rfl hso h23
         ((fn_subjPName hT hC xg (envOf st) _ p l out ii _ c0 tl0 htext hp (scalars_of_B hps) (scalars_of_B hls) hout hcl hex).trans
@@ -551,8 +584,8 @@ theorem subjBody_flat (sj : Subj) (hwf : subjWf T sj = true) (hfl : subjFlat sj 
     simp only [labelWf, Bool.and_eq_true] at hwf
     have hcl := after_noclash hT2 .label (ch.at i) R (T := T)
     have htx : pSubj ⟨T, ch⟩ i (.bn l) R = 0x5f :: (0x3a :: l ++ after T .label (ch.at i) R) := by simp [pSubj, pObj, pBNode]
-    have hus : solid T 0x5f = true := solid_pn (hT2.u_sub 0x5f hT2.us)
-    refine ⟨_, true, { xg with subj := some (.bnode (.lbl l)) }, after_skip (T := T) hC .label (ch.at i) (slot_ok hch i) R, rfl, hxg, ?_⟩
+    have hus : solid T 0x5f = true := solid_pn (hT2.u_sub 0x5f hT2.us) (by decide)
+    refine ⟨_, true, { xg with subj := some (.bnode (.lbl l)) }, after_skip (T := T) hC .label (ch.at i) (slot_ok hch i) R, rfl, hxg, (by simp [subjIsBnpl]), ?_⟩
     have s2 := Steps.tok hT2 hC (f := ⟨xg, .subjBNode⟩) (s := s) (env := envOf st)
       (inp := 0x5f :: (0x3a :: l ++ after T .label (ch.at i) R)) SkEq.rfl' rfl hus (by decide)
       ((fn_subjBNode hT hC xg (envOf st) l _ (scalars_of_B hwf.1) hwf.2 hcl).trans (subjectTail_eq _ _ _ _)) (Steps.refl _)
@@ -569,7 +602,7 @@ theorem subjBody_flat (sj : Subj) (hwf : subjWf T sj = true) (hfl : subjFlat sj 
     have hf5d : Follows C (0x5d :: after T .punct (ch.at (i + 1)) R) 0x5d (after T .punct (ch.at (i + 1)) R) :=
       follows_solid hT2 hC (solid_delim (by decide) (by decide)) (by decide) _
     let x' : Ectx := { xg with subj := some (envOf st).fresh.1 }
-    refine ⟨_, false, x', hA2, rfl, hxg, ?_⟩
+    refine ⟨_, false, x', hA2, rfl, hxg, (by simp [subjIsBnpl]), ?_⟩
     have s4 := Steps.fol hT2 hC (f := ⟨x', .bnplEnd⟩) (s := ⟨x', .pol⟩ :: ⟨x', .polContinue⟩ :: s)
       (env := (envOf st).fresh.2) (inp := 0x5d :: after T .punct (ch.at (i + 1)) R) SkEq.rfl' hf5d
       (fn_bnplEnd _ _ _) (Steps.refl _)
@@ -593,7 +626,7 @@ theorem subjBody_flat (sj : Subj) (hwf : subjWf T sj = true) (hfl : subjFlat sj 
       have hA2 := after_skip (T := T) hC .punct (ch.at (i + 1)) (slot_ok hch (i + 1)) R
       have htx : pSubj ⟨T, ch⟩ i (.coll []) R = 0x28 :: after T .punct (ch.at i) (0x29 :: after T .punct (ch.at (i + 1)) R) := by
         simp [pSubj, pObj, pPunct, pItems, itemsSlots]
-      refine ⟨_, true, { xg with subj := some (.iri TtlDoc.rdfNil) }, hA2, rfl, hxg, ?_⟩
+      refine ⟨_, true, { xg with subj := some (.iri TtlDoc.rdfNil) }, hA2, rfl, hxg, (by simp [subjIsBnpl]), ?_⟩
       have s2 := Steps.fol hT2 hC (f := ⟨xg, .parenBlock (envOf st).fresh.1⟩) (s := s)
         (env := (envOf st).fresh.2) hA1 (follows_solid hT2 hC (solid_delim (by decide) (by decide)) (by decide) _)
         (fn_parenBlock_close _ _ _ _) (Steps.refl _)
@@ -608,12 +641,12 @@ theorem pSubj_follows (sj : Subj) (hwf : subjWf T sj = true) (hfl : subjFlat sj 
   cases sj with
   | iri x1 =>
     have := pVerb_follows hT2 hC hch (.iri x1) (by simpa [subjWf, verbWf] using hwf) i R
-    obtain ⟨c, r, h1, _, h3⟩ := this
+    obtain ⟨c, r, h1, _, h3, _⟩ := this
     exact ⟨c, r, by simpa [pSubj, pObj, pVerb] using h1, h3⟩
   | bn l =>
     exact ⟨0x5f, _, by
       have : pSubj ⟨T, ch⟩ i (.bn l) R = 0x5f :: (0x3a :: l ++ after T .label (ch.at i) R) := by simp [pSubj, pObj, pBNode]
-      rw [this]; exact follows_solid hT2 hC (solid_pn (hT2.u_sub 0x5f hT2.us)) (by decide) _, by decide⟩
+      rw [this]; exact follows_solid hT2 hC (solid_pn (hT2.u_sub 0x5f hT2.us) (by decide)) (by decide) _, by decide⟩
   | anon =>
     exact ⟨0x5b, _, by
       have : pSubj ⟨T, ch⟩ i .anon R = 0x5b :: after T .punct (ch.at i) (0x5d :: after T .punct (ch.at (i + 1)) R) := by
@@ -633,7 +666,7 @@ theorem pSubj_follows (sj : Subj) (hwf : subjWf T sj = true) (hfl : subjFlat sj 
 structure TriplesFit (T : Tables) (C : Cfg) (ch : Choices) (t : Triples) : Prop where
   subj : SubjBodyGood T C ch t.s
   head : ∀ i R, ∃ c r, Follows C (pSubj ⟨T, ch⟩ i t.s R) c r ∧ c ≠ 0x7d
-  ne : t.pos ≠ []
+  ne : t.pos ≠ [] ∨ subjIsBnpl t.s = true
   fit : ∀ po ∈ t.pos, POFit T C ch po
 
 include hT hT2 hC hch in
@@ -655,10 +688,11 @@ theorem triples_body (t : Triples) (hfit : TriplesFit T C ch t) (i : Nat) (xg : 
       obtain ⟨qs2, st2⟩ := res2
       simp only [hdp, Option.some.injEq, Prod.mk.injEq] at hd
       obtain ⟨rfl, rfl⟩ := hd
-      obtain ⟨inp1, req, x', he1, hx's, hx'g, s1⟩ := hfit.subj i xg g s inp _ st st1 sT qs1 hxs hxg hds
+      obtain ⟨inp1, req, x', he1, hx's, hx'g, hbn, s1⟩ := hfit.subj i xg g s inp _ st st1 sT qs1 hxs hxg hds
         (by simpa [pTriples] using hin)
-      obtain ⟨inp2, he2, s2⟩ := posGood hT hT2 hC hch t.pos hfit.fit (i + subjSlots t.s) x' s inp1 R c r g st1 st2 qs2 sT req hf
-        (by rcases hc with h | h; exact Or.inl h; exact Or.inr (Or.inr h)) hx's hx'g hfit.ne hdp he1
+      obtain ⟨inp2, he2, s2⟩ := pos_phase hT hT2 hC hch t.pos hfit.fit (i + subjSlots t.s) x' req s inp1 R c r g st1 st2 qs2 sT hf
+        (by rcases hc with h | h; exact Or.inl h; exact Or.inr (Or.inr h)) hx's hx'g
+        (fun hpe => hbn (by rcases hfit.ne with h | h; exact absurd hpe h; exact h)) hdp he1
       exact ⟨inp2, he2, by simpa using s1.trans s2⟩
 
 include hT hT2 hC hch in
@@ -843,7 +877,7 @@ theorem label_top (htr : C.trig = true) (lab : GLabel) (hwf : glabelWf T lab = t
     have s1 := Steps.tok hT2 hC (f := ⟨x0, .statement⟩) (s := s) (env := envOf st) hin
       (show pLabel ⟨T, ch⟩ j (some (.bn l)) (pPunct ⟨T, ch⟩ k 0x7b R) =
         0x5f :: (0x3a :: l ++ after T .label (ch.at j) (pPunct ⟨T, ch⟩ k 0x7b R)) by simp [pLabel, pBNode])
-      (solid_pn (hT2.u_sub 0x5f hT2.us)) (by decide)
+      (solid_pn (hT2.u_sub 0x5f hT2.us) (by decide)) (by decide)
       (fn_statement_trig_term htr x0 (envOf st) _ _ _ _ _
         (stepStatementRune_trig_bnode hT hC htr x0 (envOf st) l _ (scalars_of_B hwf.1) hwf.2 hcl))
       (by simpa using hE1 _ _ _ (after_skip (T := T) hC .label (ch.at j) (slot_ok hch j) _))
@@ -936,7 +970,7 @@ theorem label_kw (lab : GLabel) (hwf : glabelWf T lab = true) (j k : Nat) (x0 : 
     have s1 := Steps.tok hT2 hC (f := ⟨x0, .graphLabel⟩) (s := S) (env := envOf st) hin
       (show pLabel ⟨T, ch⟩ j (some (.bn l)) (pPunct ⟨T, ch⟩ k 0x7b R) =
         0x5f :: (0x3a :: l ++ after T .label (ch.at j) (pPunct ⟨T, ch⟩ k 0x7b R)) by simp [pLabel, pBNode])
-      (solid_pn (hT2.u_sub 0x5f hT2.us)) (by decide)
+      (solid_pn (hT2.u_sub 0x5f hT2.us) (by decide)) (by decide)
       (fn_graphLabel_term x0 (envOf st) 0x5f _ (by decide) _ _ _ (by simpa using hterm))
       (by simpa using hW _ _ _ (after_skip (T := T) hC .label (ch.at j) (slot_ok hch j) _))
     simpa [toT, Term.map, toBN] using s1
@@ -954,6 +988,166 @@ theorem label_kw (lab : GLabel) (hwf : glabelWf T lab = true) (j k : Nat) (x0 : 
         0x5b :: after T .punct (ch.at j) (0x5d :: after T .punct (ch.at (j + 1)) (pPunct ⟨T, ch⟩ k 0x7b R)) by simp [pLabel, pPunct])
       (solid_delim (by decide) (by decide)) (by decide) (fn_graphLabel_bracket x0 (envOf st) _) (by simpa using s2)
     simpa [envOf_fresh] using s1
+
+/-! ### blocks and documents -/
+
+/-- what the block lemma needs -/
+def BlockFit (T : Tables) (C : Cfg) (ch : Choices) : Block → Prop
+  | .dir d => dirWf T d = true
+  | .triples t => SubjTopGood T C ch t.s ∧ (t.pos ≠ [] ∨ subjIsBnpl t.s = true) ∧ ∀ po ∈ t.pos, POFit T C ch po
+  | .graph kw g body =>
+    C.trig = true ∧ (match g with | none => kw = false | some l => glabelWf T l = true) ∧ ∀ t ∈ body, TriplesFit T C ch t
+
+include hT hT2 hC hch in
+theorem block_good (b : Block) (hfit : BlockFit T C ch b) (i : Nat) (x0 : Ectx) (s : List Frame) (inp rest : List Nat)
+    (st st' : DState) (qs : List QuadB) (hxs : x0.subj = none) (hxg : x0.graph = none)
+    (hd : dBlock C.resolve st b = some (qs, st')) (hin : SkEq C inp (pBlock ⟨T, ch⟩ i b rest)) :
+    ∃ inp' s', SkEq C inp' rest ∧
+      Steps C .eof ⟨⟨x0, .statement⟩ :: s, inp, envOf st⟩ (qs.map toStmt) ⟨⟨x0, .statement⟩ :: s', inp', envOf st'⟩ := by
+  cases b with
+  | dir d =>
+    simp only [dBlock, Option.map_eq_some_iff] at hd
+    obtain ⟨st2, hd2, heq⟩ := hd
+    simp only [Prod.mk.injEq] at heq
+    obtain ⟨rfl, rfl⟩ := heq
+    obtain ⟨inp', he, st1⟩ := dir_good hT hT2 hC hch d hfit i x0 s inp rest st st2 hd2 (by simpa [pBlock] using hin)
+    exact ⟨inp', _, he, by simpa using st1⟩
+  | triples t =>
+    obtain ⟨h1, h2, h3⟩ := hfit
+    obtain ⟨inp', he, st1⟩ := statementGood hT hT2 hC hch t h1 h2 h3 i x0 s inp rest st st' qs hxs hxg
+      (by simpa [dBlock] using hd) (by simpa [pBlock] using hin)
+    exact ⟨inp', s, he, st1⟩
+  | graph kw g body =>
+    obtain ⟨htr, hg, hbody⟩ := hfit
+    simp only [dBlock] at hd
+    cases hdl : dLabel C.resolve st g with
+    | none => simp [hdl] at hd
+    | some res =>
+      obtain ⟨gt, st1⟩ := res
+      simp only [hdl] at hd
+      let jb := i + 2 + labelSlots g
+      let kc := i + 2 + labelSlots g + bodySlots body
+      cases g with
+      | none =>
+        simp only at hg
+        subst hg
+        simp only [dLabel, Option.some.injEq, Prod.mk.injEq] at hdl
+        obtain ⟨rfl, rfl⟩ := hdl
+        obtain ⟨inp', he, s2⟩ := graph_tail hT hT2 hC hch body hbody jb kc x0 none (⟨x0, .statement⟩ :: s)
+          (after T .punct (ch.at (i + 1)) (pBody ⟨T, ch⟩ jb body (pPunct ⟨T, ch⟩ kc 0x7d rest))) rest st st' qs hxs (by simpa using hxg) hd
+          (after_skip (T := T) hC .punct (ch.at (i + 1)) (slot_ok hch _) _)
+        refine ⟨inp', s, he, ?_⟩
+        have s1 := Steps.tok hT2 hC (f := ⟨x0, .statement⟩) (s := s) (env := envOf st) hin
+          (show pBlock ⟨T, ch⟩ i (.graph false none body) rest =
+            0x7b :: after T .punct (ch.at (i + 1)) (pBody ⟨T, ch⟩ jb body (pPunct ⟨T, ch⟩ kc 0x7d rest)) by
+            simp [pBlock, pLabel, pPunct, labelSlots, jb, kc])
+          (solid_delim (by decide) (by decide)) (by decide) (fn_statement_trig_brace htr x0 (envOf st) _) (by simpa using s2)
+        simpa using s1
+      | some lab =>
+        simp only at hg
+        have hopen : pLabel ⟨T, ch⟩ (i + 1) (some lab) (pPunct ⟨T, ch⟩ (i + 1 + labelSlots (some lab)) 0x7b
+            (pBody ⟨T, ch⟩ jb body (pPunct ⟨T, ch⟩ kc 0x7d rest))) =
+            pLabel ⟨T, ch⟩ (i + 1) (some lab) (pPunct ⟨T, ch⟩ (i + 1 + labelSlots (some lab)) 0x7b
+            (pBody ⟨T, ch⟩ jb body (pPunct ⟨T, ch⟩ kc 0x7d rest))) := rfl
+        cases kw with
+        | false =>
+          obtain ⟨xg, hgs, hgg, s1⟩ := label_top hT hT2 hC hch htr lab hg (i + 1) (i + 1 + labelSlots (some lab)) x0 s inp
+            (pBody ⟨T, ch⟩ jb body (pPunct ⟨T, ch⟩ kc 0x7d rest)) st st1 gt hxs hdl (by simpa [pBlock, jb, kc] using hin)
+          obtain ⟨inp', he, s2⟩ := graph_tail hT hT2 hC hch body hbody jb kc xg gt (⟨x0, .statement⟩ :: s) _ rest st1 st' qs hgs hgg hd
+            (after_skip (T := T) hC .punct (ch.at (i + 1 + labelSlots (some lab))) (slot_ok hch _) _)
+          exact ⟨inp', s, he, by simpa using s1.trans s2⟩
+        | true =>
+          rcases afterKw_form (T := T) hC false (ch.at i) (slot_ok hch i) (pLabel ⟨T, ch⟩ (i + 1) (some lab)
+              (pPunct ⟨T, ch⟩ (i + 1 + labelSlots (some lab)) 0x7b (pBody ⟨T, ch⟩ jb body (pPunct ⟨T, ch⟩ kc 0x7d rest))))
+            with ⟨w, tl, hform, hw, hsk⟩ | ⟨hlt, _⟩
+          · obtain ⟨xg, hgs, hgg, s2⟩ := label_kw hT hT2 hC hch lab hg (i + 1) (i + 1 + labelSlots (some lab)) x0
+              (⟨x0, .statement⟩ :: s) tl (pBody ⟨T, ch⟩ jb body (pPunct ⟨T, ch⟩ kc 0x7d rest)) st st1 gt hxs hdl hsk
+            obtain ⟨inp', he, s3⟩ := graph_tail hT hT2 hC hch body hbody jb kc xg gt (⟨x0, .statement⟩ :: s) _ rest st1 st' qs hgs hgg hd
+              (after_skip (T := T) hC .punct (ch.at (i + 1 + labelSlots (some lab))) (slot_ok hch _) _)
+            refine ⟨inp', s, he, ?_⟩
+            obtain ⟨k0, ktl, hk⟩ : ∃ k0 ktl, kwCase (ch.at i).n (asc "GRAPH") ++ w :: tl = k0 :: ktl := by
+              rw [asc_GRAPH]; simp [kwCase]
+            have hk0 : isAlpha k0 = true := by
+              rw [asc_GRAPH] at hk
+              simp only [kwCase, List.cons_append, List.cons.injEq] at hk
+              rw [← hk.1]; by_cases hn : (ch.at i).n % 2 = 1 <;> simp [hn] <;> decide
+            have s1 := Steps.tok hT2 hC (f := ⟨x0, .statement⟩) (s := s) (env := envOf st) hin
+              (show pBlock ⟨T, ch⟩ i (.graph true (some lab) body) rest = k0 :: ktl by
+                rw [← hk, ← hform]; simp [pBlock, jb, kc])
+              (solid_pn (pnB_pn hT2 (hT2.alpha k0 hk0)) (by simp [isAlpha, NQ.isAlpha] at hk0; omega)) (fun hh => by subst hh; simp [isAlpha, NQ.isAlpha] at hk0)
+              (fn_statement_GRAPH hC htr x0 (envOf st) _ w tl hw k0 ktl hk) (by simpa using s2.trans s3)
+            simpa using s1
+          · cases hlt
+
+theorem stepConf_end {C : Cfg} (x : Ectx) (s : List Frame) (inp : List Nat) (env : Env)
+    (h : skipWs C .eof false inp = .end_) :
+    stepConf C .eof ⟨⟨x, .statement⟩ :: s, inp, env⟩ = some (⟨[], [], env⟩, none) := by
+  simp [stepConf, scanFn, h, stepFn]
+
+include hT hT2 hC hch in
+theorem doc_good (doc : Doc) (hfit : ∀ b ∈ doc, BlockFit T C ch b) : ∀ (i : Nat) (x0 : Ectx) (s : List Frame) (inp : List Nat)
+    (st st' : DState) (qs : List QuadB), x0.subj = none → x0.graph = none →
+    dDoc C.resolve st doc = some (qs, st') → SkEq C inp (pBlocks ⟨T, ch⟩ i doc []) →
+    Steps C .eof ⟨⟨x0, .statement⟩ :: s, inp, envOf st⟩ (qs.map toStmt) ⟨[], [], envOf st'⟩ := by
+  induction doc with
+  | nil =>
+    intro i x0 s inp st st' qs _ _ hd hin
+    simp only [dDoc, Option.some.injEq, Prod.mk.injEq] at hd
+    obtain ⟨rfl, rfl⟩ := hd
+    have : skipWs C .eof false inp = .end_ := by
+      have : skipWs C .eof false inp = skipWs C .eof false [] := by simpa [pBlocks, SkEq] using hin
+      rw [this]; rfl
+    exact Steps.quiet (stepConf_end x0 s inp _ this) (Steps.refl _)
+  | cons b bs ih =>
+    intro i x0 s inp st st' qs hxs hxg hd hin
+    simp only [dDoc] at hd
+    cases hdb : dBlock C.resolve st b with
+    | none => simp [hdb] at hd
+    | some res =>
+      obtain ⟨qs1, st1⟩ := res
+      simp only [hdb] at hd
+      cases hdr : dDoc C.resolve st1 bs with
+      | none => simp [hdr] at hd
+      | some res2 =>
+        obtain ⟨qs2, st2⟩ := res2
+        simp only [hdr, Option.some.injEq, Prod.mk.injEq] at hd
+        obtain ⟨rfl, rfl⟩ := hd
+        obtain ⟨inp1, s', he1, s1⟩ := block_good hT hT2 hC hch b (hfit b List.mem_cons_self) i x0 s inp _ st st1 qs1 hxs hxg hdb
+          (by simpa [pBlocks] using hin)
+        have s2 := ih (fun b2 hb2 => hfit b2 (List.mem_cons_of_mem _ hb2)) (i + blockSlots b) x0 s' inp1 st1 st2 qs2 hxs hxg hdr he1
+        simpa using s1.trans s2
+
+include hT hT2 hC hch in
+/-- blocks of well-formed documents of the nesting-free fragment are fit -/
+theorem blockFit_flat (b : Block) (hwf : blockWf T C.trig b = true) (hfl : blockFlat b = true) (hnb : blockNoBoolPfx b = true) :
+    BlockFit T C ch b := by
+  have htr : ∀ t, triplesWf T t = true → triplesFlat t = true → triplesNoBoolPfx t = true →
+      subjWf T t.s = true ∧ subjFlat t.s = true ∧ t.pos ≠ [] ∧ ∀ po ∈ t.pos, POFit T C ch po := by
+    intro t h1 h2 h3
+    simp only [triplesWf, Bool.and_eq_true, Bool.or_eq_true, Bool.not_eq_true', List.isEmpty_eq_false_iff] at h1
+    simp only [triplesFlat, Bool.and_eq_true] at h2
+    simp only [triplesNoBoolPfx, Bool.and_eq_true] at h3
+    refine ⟨h1.1.1, h2.1, ?_, poFit_flat hT hT2 hC hch t.pos h1.1.2 h2.2 h3.2⟩
+    rcases h1.2 with h | h
+    · exact h
+    · exfalso
+      cases hs : t.s <;> simp [hs, subjIsBnpl, subjFlat] at h h2
+  cases b with
+  | dir d => simpa [BlockFit, blockWf] using hwf
+  | triples t =>
+    obtain ⟨a, b', c, d⟩ := htr t (by simpa [blockWf] using hwf) (by simpa [blockFlat] using hfl) (by simpa [blockNoBoolPfx] using hnb)
+    exact ⟨subjTop_flat hT hT2 hC hch t.s a b', Or.inl c, d⟩
+  | graph kw g body =>
+    simp only [blockWf, Bool.and_eq_true, List.all_eq_true] at hwf
+    simp only [blockFlat, List.all_eq_true] at hfl
+    simp only [blockNoBoolPfx, List.all_eq_true] at hnb
+    refine ⟨hwf.1.1, ?_, ?_⟩
+    · cases g with
+      | none => simpa using hwf.1.2
+      | some l => simpa using hwf.1.2
+    · intro t ht
+      obtain ⟨a, b', c, d⟩ := htr t (hwf.2 t ht) (hfl t ht) (hnb t ht)
+      exact ⟨subjBody_flat hT hT2 hC hch t.s a b', fun i R => pSubj_follows hT2 hC hch t.s a b' i R, Or.inl c, d⟩
 
 end
 end RdfModel.C08
